@@ -731,7 +731,13 @@ class Module(HasAccessibles):
                 for mobj in modules:
                     # TODO when needed: here we might add a call to a method :meth:`beforeWriteInit`
                     mobj.writeInitParams()
-                    mobj.initialReads()
+                    try:
+                        mobj.initialReads()
+                    except CommunicationFailedError:
+                        raise  # handled below
+                    except Exception:
+                        # any other error must not stop the poll thread
+                        mobj.log.error('initialReads: %s', formatException())
                 # call all read functions a first time
                 for m in polled_modules:
                     for mobj, rfunc, _ in m.pollInfo.polled_parameters:
